@@ -248,11 +248,10 @@ func C19(r *core.Run) {
 				exact++
 			}
 			for _, c := range rec.Calls {
-				if c.Ms > maxMs {
-					maxMs = c.Ms
-				}
 				if c.Ep == "client" && c.Status == 504 {
-					got504++
+					got504++ // the designed 30 s wait
+				} else if c.Ms > maxMs {
+					maxMs = c.Ms
 				}
 			}
 			hang := false
@@ -278,12 +277,15 @@ func C19(r *core.Run) {
 				GotLen    int    `json:"got_len"`
 				FirstDiff int    `json:"first_diff"`
 				MetaWrong string `json:"meta_wrong"`
+				Panic     string `json:"panic"`
 			}
 			json.Unmarshal(ln, &rec)
 			nBlob++
 			r.Case(fmt.Sprintf("blob|%s|%s|%s", rec.Stack, rec.Kind, c19SizeCls(rec.Blob)))
 			cs := map[string]interface{}{"size": rec.Blob, "store": rec.Stack, "kind": rec.Kind}
 			switch {
+			case rec.Panic != "":
+				r.Violate(fmt.Sprintf("C19:store-call-panics:%s:%s", rec.Kind, c19SizeCls(rec.Blob)), fmt.Sprintf("writing/reading back a %s of %d bytes on the %s store panicked: %s", rec.Kind, rec.Blob, rec.Stack, core.Trunc(rec.Panic, 300)), cs, json.RawMessage(ln))
 			case rec.Err != "":
 				r.Violate(fmt.Sprintf("C19:stored-%s-unreadable:%s", rec.Kind, c19SizeCls(rec.Blob)), fmt.Sprintf("%s of %d bytes written to the %s store could not be written/read back: %s", rec.Kind, rec.Blob, rec.Stack, rec.Err), cs, json.RawMessage(ln))
 			case rec.FirstDiff != -1:
@@ -343,7 +345,7 @@ func C19(r *core.Run) {
 		r.Case(fmt.Sprintf("fault|%s|%s|req:%s|resp:%s|rules:%d", p.Endpoint, strings.Join(fs, "+"), c19SizeCls(p.ReqSize), c19SizeCls(p.RespSize), len(p.Rules)))
 		cs := map[string]interface{}{"plan": p.Plan, "failing_calls_at": p.Endpoint, "rules": p.Rules, "request_size": p.ReqSize, "response_size": p.RespSize}
 		for _, c := range p.Calls {
-			if c.Ms > maxMs && !c.Hung {
+			if c.Ms > maxMs && !c.Hung && !(c.Ep == "client" && c.Status == 504) {
 				maxMs = c.Ms
 			}
 		}
@@ -406,7 +408,7 @@ func C19(r *core.Run) {
 	r.Set("fault_plans", nPlans)
 	r.Set("fault_plans_with_hanging_call", nHung)
 	r.Set("clients_answered_504", got504)
-	r.Set("slowest_returning_call_ms", int(maxMs))
+	r.Set("slowest_call_outside_designed_waits_ms", int(maxMs))
 	r.Set("progress_bound_ms", T)
 	e3Finish(r, res, r.Pick(150, 3200))
 }
